@@ -28,3 +28,20 @@ Proof. vm_compute. reflexivity. Qed.
 (* not vacuous: the server does spawn one goroutine per connection *)
 Lemma front_serve_spawns : spawns "server.Serve" = true.
 Proof. vm_compute. reflexivity. Qed.
+
+(* The server's State (redirect host and port, proxy book, bypass set, admin UID, panel, dialers, clock) is
+   configuration: written by InitState, read by the goroutines of all connections.  Model/Dispatch.v and
+   Model/FirstPacket.v take it as a constant `st` that one connection cannot change for the next - so no
+   function of package server other than InitState may write a field of State (the replay cache
+   State.UsedRandom is the one mutable field; who writes it is AtomReplay's business). *)
+Definition writes_state_field (e : ev) : bool :=
+  (seqb (fst e) "w" || seqb (fst e) "set" || seqb (fst e) "del" || seqb (fst e) "addr")
+  && prefix "State." (snd e) && negb (seqb (snd e) "State.UsedRandom").
+Definition state_written_only_by (allowed : list string) : bool :=
+  forallb (fun fe : string * list ev =>
+             negb (prefix "server." (fst fe)) || mem_s (fst fe) allowed || negb (existsb writes_state_field (snd fe))) fn_events.
+Lemma server_configuration_is_written_by_InitState_only : state_written_only_by ["server.InitState"] = true.
+Proof. vm_compute. reflexivity. Qed.
+(* not vacuous: InitState does write it *)
+Lemma InitState_writes_the_configuration : existsb writes_state_field (events_of "server.InitState") = true.
+Proof. vm_compute. reflexivity. Qed.
